@@ -5,7 +5,7 @@ from __future__ import annotations
 import ast
 import re
 
-from ..core import FuncInfo, ClassInfo, Program, const_value, dotted, strip_docstring, unparse, walk_no_nested
+from ..core import seq, FuncInfo, ClassInfo, Program, const_value, dotted, strip_docstring, unparse, walk_no_nested
 from ..report import Ctx
 
 #: old -> new pairs whose names do not coincide after normalisation and whose
@@ -212,7 +212,7 @@ def run(ctx: Ctx) -> None:
         target = None
         if f.cls is not None and isinstance(t, ast.Name) and t.id in f.cls.methods:
             target = f.cls.methods[t.id]
-            if target.node.lineno > f.node.lineno:
+            if seq(target.node) > seq(f.node):
                 target = None  # not yet bound when the decorator runs
         if target is None:
             r = prog.resolve_expr(f.module, t)
